@@ -129,6 +129,18 @@ def build(unit, workdir):
                 S = src(key)
                 f = S.find_fn(cfg.get("src", fnpath))
                 body = strip_comments(f["body"])
+                if cfg.get("fragment"):
+                    # fragment extraction by anchor: from the match of the first pattern through the end of the block opened by the second
+                    from .rustsrc import mask as _mask
+                    bm = _mask(body)
+                    m1 = re.search(cfg["fragment"][0], bm, re.S)
+                    m2 = re.compile(cfg["fragment"][1], re.S).search(bm, m1.end()) if m1 else None
+                    if not m1 or not m2:
+                        raise Undecided("%s: fragment anchors lost" % fnpath)
+                    ob = bm.index("{", m2.end() - 1)
+                    body = "{\n" + body[m1.start():match_close(bm, ob) + 1] + "\n}"
+                    cfg = dict(cfg, skip_sig_check=True)
+                    g.rules_applied["fragment"] = g.rules_applied.get("fragment", 0) + 1
                 log = {}
                 rules = list(unit.get("rules", [])) if not cfg.get("no_default_rules") else []
                 rules += list(cfg.get("rules", []))
